@@ -835,6 +835,12 @@ report_corruption(ldb_reporter_t *report, size_t bytes, int status) {
 
   if (report->status != NULL && *report->status == LDB_OK)
     *report->status = status;
+
+  /* A failed read is not a corruption that may be skipped: the bytes
+     may well be intact, and skipping them would let the caller delete
+     a log whose contents were never replayed. */
+  if (status != LDB_CORRUPTION && *report->io_status == LDB_OK)
+    *report->io_status = status;
 }
 
 static int
@@ -854,6 +860,7 @@ ldb_recover_log_file(ldb_t *db, uint64_t log_number,
   ldb_memtable_t *mem = NULL;
   ldb_reader_t reader;
   uint64_t good_end = 0; /* Offset just past the last complete record. */
+  int io_rc = LDB_OK; /* First I/O (non-corruption) error seen by the reader. */
 
   ldb_mutex_assert_held(&db->mutex);
 
@@ -864,13 +871,16 @@ ldb_recover_log_file(ldb_t *db, uint64_t log_number,
   rc = ldb_seqfile_create(fname, &file);
 
   if (rc != LDB_OK) {
-    ldb_maybe_ignore_error(db, &rc);
+    /* The file was just listed: failing to open it is an I/O error,
+       not a corruption, and is never ignored (the log would be deleted
+       without having been replayed). */
     return rc;
   }
 
   /* Create the log reader. */
   reporter.fname = fname;
   reporter.status = (db->options.paranoid_checks ? &rc : NULL);
+  reporter.io_status = &io_rc;
   reporter.info_log = db->options.info_log;
   reporter.corruption = report_corruption;
 
@@ -937,6 +947,9 @@ ldb_recover_log_file(ldb_t *db, uint64_t log_number,
   ldb_batch_clear(&batch);
   ldb_reader_clear(&reader);
   ldb_rfile_destroy(file);
+
+  if (rc == LDB_OK && io_rc != LDB_OK)
+    rc = io_rc;
 
   /* See if we should keep reusing the last log file. */
   if (rc == LDB_OK && db->options.reuse_logs && last_log && compactions == 0) {
